@@ -471,6 +471,61 @@ pub fn templates() -> Vec<(String, String, Vec<Vec<PlutusData>>)> {
     out
 }
 
+/// directed UPLC terms for the substitution side condition of `lambda_reducer` / `inline_reducer`:
+/// `[(lam x BODY) ARG]` where evaluating ARG forces a thunk `d` that fails exactly when the integer
+/// argument is 0, and BODY never evaluates `x` (it occurs under a delay / a lambda / not at all).
+/// `d` occurs more than once, so it is not itself inlined.  Every public phase of the optimiser
+/// must leave the outcome on n = 0, 1, 2 unchanged (Lean: `substituted_arg_is_value` says why only
+/// value-shaped arguments may be substituted; this stream looks for the concrete failing input when
+/// the generated arm table of `lambda_reducer` stops satisfying it).
+fn uplc_directed_stream(rep: &mut Report) {
+    let bodies = [
+        ("x-under-delay", "[(lam z (con integer 1)) (delay [x d])]"),
+        ("x-under-lambda", "[(lam z (con integer 1)) (lam y [x d])]"),
+        ("x-unused", "[(lam z (con integer 1)) d]"),
+        ("x-in-untaken-branch", "(force [(force (builtin ifThenElse)) (con bool True) (delay (con integer 1)) (delay [x d])])"),
+    ];
+    let args = [
+        ("force-var", "(force d)"),
+        ("force-force-delay-var", "(force (force (delay d)))"),
+        ("apply-forcer", "[(lam u (force u)) d]"),
+        // no `constr` / `case` here: the code generator hands none to `multi_pass` (whose reducers
+        // are `todo!()` on them), so such terms are outside "compiler output"
+        ("builtin-on-forced", "[(builtin addInteger) (con integer 1) (force d)]"),
+    ];
+    for (bn, body) in bodies {
+        for (an, arg) in args {
+            let text = format!(
+                "(program 1.1.0 (lam n [(lam d [(lam x {body}) {arg}]) (delay [(builtin divideInteger) (con integer 1) [(builtin unIData) n]])]))"
+            );
+            let key = format!("uplc-directed/{}/{}", bn, an);
+            let pre = match uplc::parser::program(&text) {
+                Ok(p) => p,
+                Err(e) => {
+                    rep.notes.push(format!("{key}: harness term does not parse: {e:?}"));
+                    rep.count("uplc-directed:harness-term-does-not-parse-not-listed");
+                    continue;
+                }
+            };
+            for n in [0i64, 1, 2] {
+                let a = vec![PlutusData::BigInt(pallas_primitives::alonzo::BigInt::Int((n as i64).into()))];
+                let want = comp::eval(&pre, &a).canonical();
+                rep.evaluations += 1;
+                rep.count(&format!("uplc-directed:outcome:{}", if want == "abort" { "abort" } else { "value" }));
+                let verdict = attribute(&pre, &a, &want);
+                if !verdict.starts_with("no single phase") {
+                    rep.fail(
+                        &format!("{key}:n={n}"),
+                        "an optimiser phase changes what a directed UPLC term computes",
+                        json!({"program": text, "argument": n}),
+                        json!({"unoptimised": want, "attribution": verdict}),
+                    );
+                }
+            }
+        }
+    }
+}
+
 fn template_stream(rep: &mut Report, specs: &mut Vec<SpecReq>) {
     let all = templates();
     rep.count_n("template-sources", all.len() as u64);
@@ -569,6 +624,7 @@ pub fn run(ctx: &Ctx) -> Report {
 
     // 1b. pass-directed templates with parameters
     template_stream(&mut rep, &mut specs);
+    uplc_directed_stream(&mut rep);
 
     // 2. repository sources that type-check standalone (examples/, benchmarks/)
     let mut repo_files = vec![];
